@@ -144,7 +144,9 @@ def gen_repo(rng, portable=False, cfg=None):
     # plain directories that get no Manifest of their own (their files belong to the Manifest above them)
     if rng.random() < cfg.get('p_plain_dirs', 0.3):
         for p in rng.sample(['scripts/bootstrap.sh', 'scripts/fixup.sh', 'metadata/install-qa-check.d/60python',
-                             'zz-local-notes/README', 'aaa-first/x'], rng.choice([1, 2, 3])):
+                             'zz-local-notes/README', 'aaa-first/x',
+                             # names that are IGNOREd at the top level, met deeper down (where they are ordinary files)
+                             'scripts/packages', 'zz-local-notes/distfiles'], rng.choice([1, 2, 3])):
             if p.startswith('metadata/') and 'metadata' not in roles['manifest_dirs']:
                 continue
             add(p)
